@@ -53,8 +53,40 @@ BinOps == {"+", "-", "*", "/", "%", "&", "|", "^", "<<", ">>", ">>>", "<", ">", 
 UnOps == {"+", "-", "~", "!", "typeof", "void"}
 Convs == {"Number", "String", "Boolean", "ToInt32", "ToUint32", "ToUint16"}
 
+(* family "rep": the same Number in different INTERNAL representations.  An implementation may keep the  *)
+(* result of a bitwise operator as a 32-bit integer, and a number that the embedding program handed over  *)
+(* (Otto.Set) as the Go integer or float kind it came in; clauses 9 and 11 see only the Number value.  A   *)
+(* carrier is an expression around the literal (or0, shr0) or a Go kind through which the harness injects *)
+(* the value ([t |-> "gonum"]); the value the operator must see is the double of the same magnitude.       *)
+RepNums == <<I(0), I(1), I(-1), I(7), I(-7), I(127), I(-128), I(255), I(32767), I(-32768), I(65535),
+             NumSub(Pow2(31), I(1)), NumNeg(Pow2(31)), Pow2(31), NumSub(Pow2(32), I(1)), Pow2(32),
+             NumSub(Pow2(53), I(1)), Pow2(53), NumAdd(Pow2(53), I(2)), NumNeg(NumAdd(Pow2(53), I(2))), Pow2(57), NumAdd(Pow2(57), Pow2(10)), Pow2(60), NumNeg(Pow2(60)),
+             NumSub(Pow2(63), Pow2(10)), NumNeg(Pow2(63)), Pow2(63), NumSub(Pow2(64), Pow2(11)),
+             DecToNum(FALSE, <<1>>, 18), DecToNum(FALSE, <<1>>, 19), Canon(FALSE, <<3>>, -1), Canon(TRUE, <<1>>, -1)>>
+KindLo(k) == CASE k = "int8" -> NumNeg(Pow2(7)) [] k = "int16" -> NumNeg(Pow2(15)) [] k \in {"int32", "or0"} -> NumNeg(Pow2(31))
+               [] k \in {"int", "int64"} -> NumNeg(Pow2(63)) [] OTHER -> I(0)
+KindHi(k) == CASE k = "int8" -> I(127) [] k = "int16" -> I(32767) [] k \in {"int32", "or0"} -> NumSub(Pow2(31), I(1))
+               [] k \in {"int", "int64"} -> NumSub(Pow2(63), Pow2(10)) [] k = "uint8" -> I(255) [] k = "uint16" -> I(65535)
+               [] k \in {"uint32", "shr0"} -> NumSub(Pow2(32), I(1)) [] k \in {"uint", "uint64"} -> NumSub(Pow2(64), Pow2(11))
+GoIntKinds == {"int", "int8", "int16", "int32", "int64", "uint", "uint8", "uint16", "uint32", "uint64"}
+Carriers == GoIntKinds \cup {"or0", "shr0", "float64", "float32"}
+Fits(k, n) ==
+    CASE k = "float64" -> TRUE
+      [] k = "float32" -> n \in {I(0), I(1), I(-1), I(7), I(255), I(65535), Pow2(31), Pow2(32), NumNeg(Pow2(31)), Pow2(60), Pow2(63), Canon(FALSE, <<3>>, -1), Canon(TRUE, <<1>>, -1)}
+      [] OTHER -> IsInteger(n) /\ NumCmp(KindLo(k), n) <= 0 /\ NumCmp(n, KindHi(k)) <= 0
+RepVals == {r \in {[car |-> k, n |-> RepNums[i]] : k \in Carriers, i \in 1..Len(RepNums)} : Fits(r.car, r.n)}
+RepCases ==
+    {[fam |-> "repun", op |-> op, car |-> r.car, a |-> NumV(r.n)] : op \in UnOps, r \in RepVals}
+    \cup {[fam |-> "repconv", f |-> f, car |-> r.car, a |-> NumV(r.n)] : f \in Convs, r \in RepVals}
+    \cup {[fam |-> "repbin", op |-> op, car |-> r.car, a |-> NumV(r.n), b |-> b, swap |-> sw] :
+             op \in {"+", "*", "%", "==", "===", "<", ">=", "|", ">>>"}, r \in RepVals,
+             b \in {IntV(1), StrV(<<>>), StrV(<<49>>), Undef}, sw \in BOOLEAN}
+    \cup {[fam |-> "repbin", op |-> op, car |-> r.car, a |-> NumV(r.n), b |-> NumV(r.n), swap |-> sw] :
+             op \in {"+", "*", "%", "==", "===", "<", ">=", "|", ">>>"}, r \in RepVals, sw \in BOOLEAN}
+
 (* small families: an explicit set of cases *)
 SmallCases ==
+    RepCases \cup
     {[fam |-> "un", op |-> op, a |-> a] : op \in UnOps, a \in Vals}
     \cup {[fam |-> "un", op |-> op, a |-> a] : op \in {"!", "typeof", "void"}, a \in Fns}
     \cup {[fam |-> "conv", f |-> f, a |-> a] : f \in Convs, a \in Vals}
@@ -84,11 +116,22 @@ ValSeq == SetToSeq(Vals)
 
 Lit(v) == [lit |-> v]
 HLog(k) == "H" \o ToString(k)
+(* a value delivered through a carrier *)
+Car(car, v) == CASE car = "or0" -> <<"(", Lit(v), "|0)">> [] car = "shr0" -> <<"(", Lit(v), ">>>0)">>
+                 [] OTHER -> <<Lit([t |-> "gonum", kind |-> car, n |-> v.n])>>
 
 (* the JavaScript text of a case, and the expected result *)
 Js(c) ==
     CASE c.fam = "bin" -> <<"(H(1),", Lit(c.a), ") " \o c.op \o " (H(2),", Lit(c.b), ")">>
       [] c.fam = "un" -> <<c.op \o " (H(1),", Lit(c.a), ")">>
+      [] c.fam = "repun" -> <<c.op \o " (H(1),">> \o Car(c.car, c.a) \o <<")">>
+      [] c.fam = "repbin" -> IF c.swap THEN <<"(H(1),", Lit(c.b), ") " \o c.op \o " (H(2),">> \o Car(c.car, c.a) \o <<")">>
+                             ELSE <<"(H(1),">> \o Car(c.car, c.a) \o <<") " \o c.op \o " (H(2),", Lit(c.b), ")">>
+      [] c.fam = "repconv" ->
+            (CASE c.f \in {"Number", "String", "Boolean"} -> <<c.f \o "(">> \o Car(c.car, c.a) \o <<")">>
+               [] c.f = "ToInt32" -> <<"(">> \o Car(c.car, c.a) \o <<") >> 0">>
+               [] c.f = "ToUint32" -> <<"(">> \o Car(c.car, c.a) \o <<") >>> 0">>
+               [] c.f = "ToUint16" -> <<"String.fromCharCode(">> \o Car(c.car, c.a) \o <<").charCodeAt(0)">>)
       [] c.fam = "conv" ->
             (CASE c.f \in {"Number", "String", "Boolean"} -> <<c.f \o "(", Lit(c.a), ")">>
                [] c.f = "ToInt32" -> <<"(", Lit(c.a), ") >> 0">>
@@ -104,7 +147,9 @@ Js(c) ==
 
 Expect(Bin(_, _, _, _), Un(_, _, _), Conv(_, _, _), TB(_), c) ==
     CASE c.fam = "bin" -> Bin(c.op, c.a, c.b, <<HLog(1), HLog(2)>>)
-      [] c.fam = "un" -> Un(c.op, c.a, <<HLog(1)>>)
+      [] c.fam \in {"un", "repun"} -> Un(c.op, c.a, <<HLog(1)>>)
+      [] c.fam = "repconv" -> Conv(c.f, c.a, <<>>)
+      [] c.fam = "repbin" -> IF c.swap THEN Bin(c.op, c.b, c.a, <<HLog(1), HLog(2)>>) ELSE Bin(c.op, c.a, c.b, <<HLog(1), HLog(2)>>)
       [] c.fam = "conv" -> Conv(c.f, c.a, <<>>)
       [] c.fam = "logic" ->
             IF (c.op = "&&") = TB(c.a) THEN [thr |-> "", v |-> c.b, log |-> <<HLog(1), HLog(2)>>]
